@@ -578,14 +578,17 @@ int main(int argc, char** argv) {
     for (size_t i = 0; i < cases.size(); ++i) {
       if ((long)(i % nshards) != shard) continue;
       if (a.Has("only") && a.GetInt("only", 0) != (long)i) continue;
-      pid_t pid = fork();
-      if (pid == 0) {
-        alarm(timeout_s * 3);
-        RunGuarded(cases[i].second);
-        _exit(0);
+      int st = 0;
+      for (int attempt = 0; attempt < 2; ++attempt) {
+        pid_t pid = fork();
+        if (pid == 0) {
+          alarm(timeout_s * (attempt ? 30 : 3));   // (a case that ran into the wall-clock limit is run once more with ten times as much)
+          RunGuarded(cases[i].second);
+          _exit(0);
+        }
+        waitpid(pid, &st, 0);
+        if (!(WIFSIGNALED(st) && WTERMSIG(st) == SIGALRM)) break;
       }
-      int st;
-      waitpid(pid, &st, 0);
       if (!(WIFEXITED(st) && WEXITSTATUS(st) == 0)) {
         nbad++;
         bad += (bad.empty() ? "" : "; ") + to_string(i) + ":" + cases[i].first + " (status " + to_string(st) + ")";
@@ -609,7 +612,7 @@ int main(int argc, char** argv) {
     return 0;
   }
 
-  uint64_t total_inputs = 0, crashes = 0;
+  uint64_t total_inputs = 0, crashes = 0, slow_inputs = 0;
   int hangs = 0;
   bool stopped_early = false;  // enough crashing inputs collected: the verdict is clear
   string first_bad;
@@ -644,6 +647,23 @@ int main(int argc, char** argv) {
       if (WIFEXITED(st) && WEXITSTATUS(st) == 17) { next = sh->current; continue; }
       // died on sh->current
       uint64_t bad = sh->current;
+      if (WIFSIGNALED(st) && WTERMSIG(st) == SIGALRM) {
+        // the watchdog measures wall-clock time: on a busy machine a stall of some seconds is not a hang.  The input is run
+        // again, alone, with ten times the limit, before it is called one.
+        pid_t p2 = fork();
+        if (p2 == 0) {
+          struct rlimit nocore = {0, 0};
+          setrlimit(RLIMIT_CORE, &nocore);
+          alarm(timeout_s * 5);
+          string in2 = Compose(*fmt, bad, len);
+          RunGuarded([&] { fmt->fn(in2); });
+          _exit(0);
+        }
+        int st2;
+        waitpid(p2, &st2, 0);
+        if (WIFEXITED(st2) && WEXITSTATUS(st2) == 0) { slow_inputs++; next = bad + nshards; continue; }
+        st = st2;
+      }
       crashes++;
       if (crashes >= 25) { stopped_early = true; }
       // inputs that run into the watchdog cost its full length each: a handful settles the verdict
@@ -660,9 +680,9 @@ int main(int argc, char** argv) {
   string bads;
   for (auto& b : all_bad) bads += (bads.empty() ? "" : ",") + string("\"") + vx::Hex(b) + "\"";
   dprintf(report_fd, "{\"format\":\"%s\",\"inputs\":%llu,\"accepted\":%llu,\"rejected\":%llu,\"crashes\":%llu,\"first_bad\":\"%s\","
-                     "\"first_bad_status\":%d,\"stopped_early\":%d,\"bad_inputs\":[%s]}\n",
+                     "\"first_bad_status\":%d,\"stopped_early\":%d,\"inputs_repeated_after_a_timeout\":%llu,\"bad_inputs\":[%s]}\n",
           fmt->name, (unsigned long long)total_inputs, (unsigned long long)sh->counts.accepted,
-          (unsigned long long)sh->counts.rejected, (unsigned long long)crashes, vx::Hex(first_bad).c_str(), first_bad_status, (int)stopped_early,
+          (unsigned long long)sh->counts.rejected, (unsigned long long)crashes, vx::Hex(first_bad).c_str(), first_bad_status, (int)stopped_early, (unsigned long long)slow_inputs,
           bads.c_str());
   return 0;
 }
